@@ -23,4 +23,47 @@ CONSTANTS = {
          r"fn\s+masked_primitives_to_bytes[\s\S]*?out\.push\(\(\s*idx\s*,\s*array\.is_valid\(idx\)\.then_some\(values\[idx\]\.to_byte_slice\(\)\)(\s*),?\s*\)\)", "intlist"),
     ],
 }
+
+# ---- shape ties (no value): the group only captures whitespace; if the guarded expression is edited the
+# pattern stops matching, the item goes LOST and the bridge lemma `selection_shapes_intact` breaks.
+def _shape(name, path, rx):
+    return (name, path, rx, "intlist")
+
+_CO = "arrow-select/src/coalesce.rs"
+_FI = "arrow-select/src/filter.rs"
+_TA = "arrow-select/src/take.rs"
+SHAPES = [
+    _shape("SH_COAL_LOOP_GUARD", _CO, r"while\s+num_rows\s*>\s*\(self\.target_batch_size\s*-\s*self\.buffered_rows\)(\s*)\{"),
+    _shape("SH_COAL_LOOP_BODY", _CO, r"let\s+remaining_rows\s*=\s*self\.target_batch_size\s*-\s*self\.buffered_rows;[\s\S]*?self\.buffered_rows\s*\+=\s*remaining_rows;\s*offset\s*\+=\s*remaining_rows;\s*num_rows\s*-=\s*remaining_rows;(\s*)self\.finish_buffered_batch\(\)\?;"),
+    _shape("SH_COAL_FINISH_GUARD", _CO, r"self\.buffered_rows\s*\+=\s*num_rows;[\s\S]*?if\s+self\.buffered_rows\s*>=\s*self\.target_batch_size(\s*)\{\s*self\.finish_buffered_batch\(\)\?;"),
+    _shape("SH_COAL_EMPTY_SKIP", _CO, r"if\s+batch_size\s*==\s*0(\s*)\{\s*return\s+Ok\(\(\)\);"),
+    _shape("SH_COAL_BYPASS", _CO, r"&&\s*batch_size\s*>\s*limit\s*\{[\s\S]*?if\s+self\.buffered_rows\s*==\s*0(\s*)\{\s*self\.completed\.push_back\(batch\);\s*return\s+Ok\(\(\)\);[\s\S]*?if\s+self\.buffered_rows\s*>\s*limit\s*\{\s*self\.finish_buffered_batch\(\)\?;\s*self\.completed\.push_back\(batch\);"),
+    _shape("SH_COAL_FITS", _CO, r"let\s+does_not_fit_buffer\s*=\s*selected_count\s*>\s*self\.target_batch_size\s*-\s*self\.buffered_rows(\s*);"),
+    _shape("SH_COAL_EXCEEDS", _CO, r"\.is_some_and\(\|limit\|\s*selected_count\s*>\s*limit\)(\s*);"),
+    _shape("SH_COAL_SPARSE", _CO, r"selected_count\s*<=\s*filter_len\s*/\s*SPARSE_FILTER_COPY_MAX_SELECTIVITY_DENOMINATOR(\s*)\}"),
+    _shape("SH_COAL_MATERIALIZE", _CO, r"let\s+should_materialize_filter\s*=\s*exceeds_coalesce_limit\s*\|\|\s*self\.has_non_specialized_filter_columns\s*\|\|\s*does_not_fit_buffer\s*\|\|\s*!should_use_sparse_filter_copy\(filter_len,\s*selected_count\)(\s*);"),
+    _shape("SH_COAL_FILTER_SHORTCUTS", _CO, r"if\s+selected_count\s*==\s*0\s*\{\s*return\s+Ok\(\(\)\);\s*\}\s*if\s+selected_count\s*==\s*batch_num_rows\s*&&\s*filter_len\s*==\s*batch_num_rows(\s*)\{\s*return\s+self\.push_batch\(batch\);"),
+    _shape("SH_COAL_SPARSE_TAIL", _CO, r"self\.buffered_rows\s*\+=\s*selected_count;\s*if\s+self\.buffered_rows\s*>=\s*self\.target_batch_size(\s*)\{\s*self\.finish_buffered_batch\(\)\?;"),
+    _shape("SH_COAL_FINISH_FN", _CO, r"pub\s+fn\s+finish_buffered_batch[\s\S]*?if\s+self\.buffered_rows\s*==\s*0\s*\{\s*return\s+Ok\(\(\)\);\s*\}[\s\S]*?self\.buffered_rows\s*=\s*0;\s*self\.completed\.push_back\(batch\);(\s*)Ok\(\(\)\)"),
+    _shape("SH_COAL_NEXT", _CO, r"pub\s+fn\s+next_completed_batch\(&mut\s+self\)\s*->\s*Option<RecordBatch>\s*\{\s*self\.completed\.pop_front\(\)(\s*)\}"),
+    _shape("SH_FILTER_DEFAULT_STRATEGY", _FI, r"if\s+filter_length\s*==\s*0\s*\|\|\s*filter_count\s*==\s*0\s*\{\s*return\s+IterationStrategy::None;\s*\}\s*if\s+filter_count\s*==\s*filter_length(\s*)\{\s*return\s+IterationStrategy::All;"),
+    _shape("SH_FILTER_ALL_NONE", _FI, r"IterationStrategy::None\s*=>\s*Ok\(new_empty_array\(values\.data_type\(\)\)\),\s*IterationStrategy::All\s*=>\s*Ok\(values\.slice\(0,\s*predicate\.count\)\)(\s*),"),
+    _shape("SH_FILTER_LEN_GUARD", _FI, r"fn\s+filter_array[\s\S]*?if\s+predicate\.filter\.len\(\)\s*>\s*values\.len\(\)(\s*)\{\s*return\s+Err"),
+    _shape("SH_FILTER_PREP_MASK", _FI, r"let\s+mask\s*=\s*filter\.values\(\)\s*&\s*nulls\.inner\(\)(\s*);"),
+    _shape("SH_FILTER_NEW_WITH_COUNT", _FI, r"let\s+filter\s*=\s*match\s+filter\.null_count\(\)\s*\{\s*0\s*=>\s*filter\.clone\(\),\s*_\s*=>\s*prep_null_mask_filter\(filter\)(\s*),"),
+    _shape("SH_FILTER_NULLS_COUNT", _FI, r"let\s+null_count\s*=\s*self\.count\s*-\s*nulls\.count_set_bits_offset\(0,\s*self\.count\)(\s*);\s*if\s+null_count\s*==\s*0\s*\{\s*return\s+None;"),
+    _shape("SH_FILTER_BITS_OFFSETS", _FI, r"get_bit_raw\(buffer\.values\(\)\.as_ptr\(\),\s*src_idx\s*\+\s*offset\)[\s\S]*?get_bit_raw\(buffer\.values\(\)\.as_ptr\(\),\s*\*src_idx\s*\+\s*offset\)[\s\S]*?append_packed_range\(start\s*\+\s*offset\.\.end\s*\+\s*offset,\s*src\)[\s\S]*?append_packed_range\(\*start\s*\+\s*offset\.\.\*end\s*\+\s*offset,\s*src\)(\s*)\}"),
+    _shape("SH_FILTER_BYTES_SLICES", _FI, r"let\s+value_start\s*=\s*self\.get_value_offset\(start\);\s*let\s+value_end\s*=\s*self\.get_value_offset\(end\);\s*self\.dst_values\s*\.extend_from_slice\(&self\.src_values\[value_start\.\.value_end\]\)(\s*);"),
+    _shape("SH_FILTER_BYTES_IDX", _FI, r"let\s+start\s*=\s*self\.src_offsets\[idx\]\.as_usize\(\);\s*let\s+end\s*=\s*self\.src_offsets\[idx\s*\+\s*1\]\.as_usize\(\);\s*let\s+len\s*=\s*OffsetSize::from_usize\(end\s*-\s*start\)\.expect\(\"illegal offset range\"\);\s*self\.cur_offset\s*\+=\s*len;(\s*)self\.cur_offset"),
+    _shape("SH_TAKE_NULLS", _TA, r"fn\s+take_nulls[\s\S]*?match\s+values\.filter\(\|n\|\s*n\.null_count\(\)\s*>\s*0\)\s*\{[\s\S]*?None\s*=>\s*indices\.nulls\(\)\.cloned\(\)(\s*),"),
+    _shape("SH_TAKE_NATIVE_NULL", _TA, r"false\s*=>\s*T::default\(\),\s*true\s*=>\s*panic!\(\"Out-of-bounds index \{index:\?\}\"\)(\s*),"),
+    _shape("SH_TAKE_CHECK_BOUNDS", _TA, r"in_bounds\s*&\s*\(i\s*>=\s*T::Native::ZERO\)\s*&\s*\(i\s*<\s*len\)(\s*)\}"),
+    _shape("SH_TAKE_FSL_BOUND", _TA, r"if\s+index\s*>=\s*list\.len\(\)(\s*)\{\s*return\s+Err"),
+    _shape("SH_NULLIF_EXPR", "arrow-select/src/nullif.rs", r"let\s+t\s*=\s*l\s*&\s*!r(\s*);"),
+    _shape("SH_NULLIF_RIGHT", "arrow-select/src/nullif.rs", r"Some\(nulls\)\s*=>\s*right\.values\(\)\s*&\s*nulls\.inner\(\)(\s*),"),
+    _shape("SH_SHIFT_GUARD", "arrow-select/src/window.rs", r"offset\s*==\s*i64::MIN\s*\|\|\s*abs\(offset\)\s*>=\s*value_len(\s*)\{"),
+    _shape("SH_INTERNER_CMP", "arrow-select/src/dictionary.rs", r"if\s+\*current\s*!=\s*new(\s*)\{\s*\*v\s*=\s*f\(\)\?;\s*\*current\s*=\s*new;"),
+    _shape("SH_CONCAT_BYTES_SHIFT", "arrow-array/src/builder/generic_bytes_builder.rs", r"let\s+shift:\s*T::Offset\s*=\s*self\.next_offset\(\)\s*-\s*offsets\[0\](\s*);"),
+]
+CONSTANTS["C03"].extend(SHAPES)
 FUNCTIONS = {}
